@@ -254,9 +254,10 @@ class GhostFold:
         arr = arr.copy()      # freeze the element closure: later in-place mutation creates a new fold
         self.arr = arr
         self.op = op
-        self.ident = Fraction(0) if op == "+" else Fraction(1)
+        # "max0": running maximum started at 0 (numpy semantics: NaN propagates), as in `m = 0; for ..: m = np.max([m, a])`
+        self.ident = Fraction(0) if op in ("+", "max0") else Fraction(1)
         c = ctx()
-        self.name = c.fresh("PS" if op == "+" else "PP")
+        self.name = c.fresh({"+": "PS", "*": "PP", "max0": "PM"}[op])
         self.seen = {}
         self.conc_cache = None
         if arr.items is None:
@@ -285,8 +286,13 @@ class GhostFold:
     def _apply(self, acc, a):
         if self.intkind:
             a = a if not isinstance(a, (bool, SBool)) else mkint(iite(bterm(a), 1, 0))
+            if self.op == "max0":
+                return mkint(iite(icmp(">", a, acc), iterm(a), iterm(acc)))
             return mkint(iadd(acc, a)) if self.op == "+" else mkint(imul(acc, a))
-        r = xadd(acc, a) if self.op == "+" else xmul(acc, a)
+        if self.op == "max0":
+            r = xmaximum(xr(acc), xr(a))
+        else:
+            r = xadd(acc, a) if self.op == "+" else xmul(acc, a)
         r.npk = True
         return r
 
